@@ -42,8 +42,10 @@ def texts(rng, n, maxtok):
         if not balanced(toks):
             continue
         s = ""
-        for tk in toks:
-            s += tk + ("" if tk.endswith("\n") else rng.choice(SEPS))
+        for i, tk in enumerate(toks):
+            last = i == len(toks) - 1
+            # half of the texts end with their last token, nothing after it
+            s += tk + ("" if tk.endswith("\n") or (last and rng.random() < 0.5) else rng.choice(SEPS))
         out.add(s)
     return sorted(out)
 
